@@ -170,6 +170,21 @@ def rule_r2_r3(ctx, rep):
     rep.oblige(("R2", "walk"), ok)
     if not ok:
         rep.add("R2", tfi.qname, "walk over the children", "evaluate.tree does not visit every child unconditionally and in order", tfi.loc())
+    else:
+        # ... and on every path: no early exit in front of the evaluation of the node or of the walk (whatever the node is called)
+        from ..marks import MarkDomain as _MD, run_marks as _rm
+        md_ = _MD()
+        for lp in [n for n in ast.walk(tfi.node) if isinstance(n, (ast.For, ast.While))]:
+            md_.mark(lp.iter if isinstance(lp, ast.For) else lp.test, "WALK")
+        for c in ast.walk(tfi.node):
+            if isinstance(c, ast.Call) and any(tg.func is not None and tg.func.qname == EVAL + ".node" for tg in w.resolve_call(ft, c)):
+                md_.mark(c, "EVAL")
+        _fl, exits_ = _rm(ctx, tfi, md_)
+        okx = bool(exits_) and all("WALK" in must and "EVAL" in must for (must, _may) in exits_)
+        rep.oblige(("R2", "walk-all-paths"), okx)
+        if not okx:
+            rep.add("R2", tfi.qname, "early exit of evaluate.tree", "evaluate.tree can return without evaluating the node and walking its children (a test on the "
+                    "node decides whether a subtree is evaluated at all): the recommendations for the elements below are lost", tfi.loc())
     for n in ast.walk(tfi.node):
         if isinstance(n, ast.Call) and isinstance(n.func, ast.Attribute) and isinstance(n.func.value, ast.Name) and n.func.value.id == wparam:
             rep.count("writes to the caller's warning list")
